@@ -296,6 +296,8 @@ def strings_map(I, args, ins):
     name = ins['call']['fn']['n'].split('.')[-1]
     if isinstance(s, str):
         return {'ToLower': s.lower, 'ToUpper': s.upper, 'TrimSpace': lambda: s.strip(' \t\n\r\v\f'), 'Title': s.title}[name]()
+    if name == 'TrimSpace' and (str(s) in I.ctx.ghost.get('b64dec', {}) or str(s) in I.ctx.ghost.get('string_tag', {})):
+        return s      # base64 text has no white space
     f = z3.Function('strings.' + name, z3.StringSort(), z3.StringSort())
     return f(s)
 
